@@ -5,22 +5,22 @@ The CIDInit procedure set of `cmap.go` (15 operators).  The scratch slices
 (every entry is overwritten before it is appended), so the state keeps the lengths.
 -/
 namespace PsVerif.Model
-open State
+open VM
 
 def cmapBlockLimit : Int := 100
 
-def withCMap (s : State) (k : Nat → CMapInfo → State × Res) : State × Res :=
+def withCMap (s : VM) (k : Nat → CMapInfo → VM × Res) : VM × Res :=
   match s.cmapMappings with
   | none => psErr s "undefined"
   | some r => k r (s.getCMap r)
 
-def setCMap (s : State) (r : Nat) (c : CMapInfo) : State := s.setCell r (.cmap c)
+def setCMap (s : VM) (r : Nat) (c : CMapInfo) : VM := s.setCell r (.cmap c)
 
-def bBegincmap (s : State) : State × Res :=
+def bBegincmap (s : VM) : VM × Res :=
   let (s1, r) := s.alloc (.cmap {})
   okRes { s1 with cmapMappings := some r }
 
-def strBytes (s : State) : Obj → List UInt8
+def strBytes (s : VM) : Obj → List UInt8
   | .str r o l => s.viewBytes r o l
   | _ => []
 
@@ -33,7 +33,7 @@ def bytesLt : List UInt8 → List UInt8 → Bool
 
 def bytesLe (a b : List UInt8) : Bool := !bytesLt b a
 
-def bEndcmap (s : State) : State × Res :=
+def bEndcmap (s : VM) : VM × Res :=
   match s.dictStack, s.cmapMappings with
   | d :: _, some r =>
     let c := s.getCMap r
@@ -52,7 +52,7 @@ def bEndcmap (s : State) : State × Res :=
     okRes { (s1.dictPut d "CodeMap" (.cmapInfo r)) with cmapMappings := none }
   | _, _ => psErr s "stackunderflow"
 
-def bUsecmap (s : State) : State × Res :=
+def bUsecmap (s : VM) : VM × Res :=
   withCMap s fun r c =>
     match s.stack with
     | [] => psErr s "stackunderflow"
@@ -60,7 +60,7 @@ def bUsecmap (s : State) : State × Res :=
     | _ => psErr s "typecheck"
 
 /-- common head of the `begin…` operators: pops the count `n` -/
-def beginBlock (s : State) (set : State → Nat → State) : State × Res :=
+def beginBlock (s : VM) (set : VM → Nat → VM) : VM × Res :=
   withCMap s fun _ _ =>
     match s.stack with
     | [] => psErr s "stackunderflow"
@@ -69,9 +69,9 @@ def beginBlock (s : State) (set : State → Nat → State) : State × Res :=
       else okRes (set { s with stack := rest } n.toNat)
     | _ => psErr s "typecheck"
 
-def bBegincodespacerange (s : State) := beginBlock s (fun s n => { s with cmapCodeSpaceRanges := n })
-def bBeginChars (s : State) := beginBlock s (fun s n => { s with cmapChars := n })
-def bBeginRanges (s : State) := beginBlock s (fun s n => { s with cmapRanges := n })
+def bBegincodespacerange (s : VM) := beginBlock s (fun s n => { s with cmapCodeSpaceRanges := n })
+def bBeginChars (s : VM) := beginBlock s (fun s n => { s with cmapChars := n })
+def bBeginRanges (s : VM) := beginBlock s (fun s n => { s with cmapRanges := n })
 
 def isStr : Obj → Bool | .str .. => true | _ => false
 def isInt : Obj → Bool | .int _ => true | _ => false
@@ -79,7 +79,7 @@ def isStrOrName : Obj → Bool | .str .. | .name _ => true | _ => false
 def isStrOrArr : Obj → Bool | .str .. | .arr .. => true | _ => false
 
 /-- entries `lo hi` (bottom to top) -/
-def collectPairs (s : State) (checkOrder : Bool) : List Obj → Except ErrName (List CodeSpaceRange)
+def collectPairs (s : VM) (checkOrder : Bool) : List Obj → Except ErrName (List CodeSpaceRange)
   | [] => .ok []
   | lo :: hi :: rest =>
     if !isStr lo then .error "typecheck"
@@ -91,7 +91,7 @@ def collectPairs (s : State) (checkOrder : Bool) : List Obj → Except ErrName (
       pure ({ low := lo, high := hi } :: r)
   | _ => .ok []
 
-def bEndcodespacerange (s : State) : State × Res :=
+def bEndcodespacerange (s : VM) : VM × Res :=
   withCMap s fun r c =>
     let n := 2 * s.cmapCodeSpaceRanges
     if s.stack.length < n then psErr s "stackunderflow"
@@ -112,7 +112,7 @@ def collectChars (valOk : Obj → Bool) : List Obj → Except ErrName (List Char
       pure ({ src := code, dst := val } :: r)
   | _ => .ok []
 
-def endChars (valOk : Obj → Bool) (add : CMapInfo → List CharMap → CMapInfo) (s : State) : State × Res :=
+def endChars (valOk : Obj → Bool) (add : CMapInfo → List CharMap → CMapInfo) (s : VM) : VM × Res :=
   withCMap s fun r c =>
     let n := 2 * s.cmapChars
     if s.stack.length < n then psErr s "stackunderflow"
@@ -121,7 +121,7 @@ def endChars (valOk : Obj → Bool) (add : CMapInfo → List CharMap → CMapInf
       | .error e => psErr s e
       | .ok es => okRes { (setCMap s r (add c es)) with stack := s.stack.drop n, cmapChars := 0 }
 
-def collectRanges (s : State) (valOk : Obj → Bool) : List Obj → Except ErrName (List RangeMap)
+def collectRanges (s : VM) (valOk : Obj → Bool) : List Obj → Except ErrName (List RangeMap)
   | [] => .ok []
   | lo :: hi :: val :: rest =>
     if !isStr lo then .error "typecheck"
@@ -133,7 +133,7 @@ def collectRanges (s : State) (valOk : Obj → Bool) : List Obj → Except ErrNa
       pure ({ low := lo, high := hi, dst := val } :: r)
   | _ => .ok []
 
-def endRanges (valOk : Obj → Bool) (add : CMapInfo → List RangeMap → CMapInfo) (s : State) : State × Res :=
+def endRanges (valOk : Obj → Bool) (add : CMapInfo → List RangeMap → CMapInfo) (s : VM) : VM × Res :=
   withCMap s fun r c =>
     let n := 3 * s.cmapRanges
     if s.stack.length < n then psErr s "stackunderflow"
@@ -155,7 +155,7 @@ def cidInitKeys : List String :=
    "beginnotdefchar", "beginnotdefrange", "endbfchar", "endbfrange", "endcidchar", "endcidrange",
    "endcmap", "endcodespacerange", "endnotdefchar", "endnotdefrange", "usecmap"]
 
-def cmapBuiltin (id : String) (s : State) : Option (State × Res) :=
+def cmapBuiltin (id : String) (s : VM) : Option (VM × Res) :=
   match id with
   | "cid:begincmap" => some (bBegincmap s)
   | "cid:endcmap" => some (bEndcmap s)
